@@ -219,6 +219,9 @@ func runC17(t *testing.T, c simrt.Chooser, o Opts) *Out {
 		used[m] = true
 		ifc := ifs[1+p.n("defif", len(ifs)-1)]
 		r := RouteSpec{IfIndex: ifc.Index, Metric: m, Gw: "10.255.255.1"}
+		if p.pct("nogw", 30) {
+			r.Gw = "" // `default dev tun0`: the usual form of a VPN / point-to-point default route
+		}
 		k := p.n("routepos", len(routes)+1)
 		routes = append(routes[:k], append([]RouteSpec{r}, routes[k:]...)...)
 	}
